@@ -12,6 +12,7 @@ import Fbr.Lemmas.OvlSimRO
 import Fbr.Lemmas.OvlOps
 import Fbr.Lemmas.OvlAll
 import Fbr.Lemmas.OvlRm
+import Fbr.Lemmas.OvlRmdirB
 
 namespace Fbr.Thm.C10
 open Fbr.Ovl
@@ -222,38 +223,75 @@ theorem fresh_view_is_merge (d : Disk) (hr : d.RootsOK) (ht : d.TreesOK) (p : Li
   have h := import_consistent d hr ht
   rw [consistent_view_is_merge _ h.1, h.2]
 
-/-- `view_is_merge`, PARTIAL: after any history made of the operations in `Op.covered` — every
-    non-modifying operation (lookup, readdir, read, readlink, getxattr, open read-only, walk; they
-    load directories lazily) and eleven of the thirteen modifying ones: open for writing (incl.
-    O_TRUNC), write, chmod, truncate, setxattr, removexattr (with copy-up of files, symlinks,
-    special files and of any chain of missing parent directories), create, mkdir, mknod, symlink
-    (over nothing, over an upper whiteout, over a lower whiteout; `set_opaque` included) and unlink
-    (with or without whiteout, `lower_entry_exists` included) — from ANY initial disk, the live
-    view at every path is the overlayfs union of what is on disk then.  Failed operations are
-    included (they may leave copied-up parents behind; the cache stays valid).
+/-- `view_is_merge`: after ANY history of operations — all 19 kinds: lookup, readdir, read,
+    readlink, getxattr, open (any flags), walk, write, chmod, truncate, setxattr, removexattr (with
+    copy-up of files, symlinks, special files and of any chain of missing parent directories),
+    create, mkdir, mknod, symlink (over nothing, over an upper whiteout, over a lower whiteout;
+    `set_opaque` included), link (both copy-ups included), unlink and rmdir (with or without
+    whiteout, `lower_entry_exists` and the clearing of upper whiteouts by `empty_node_directory`
+    included), successful or failed — from ANY initial disk whose layers are trees with directory
+    roots, the live view at EVERY path is the overlayfs union of what is on disk then.
 
-    What is missing for the full statement: `link` and `rmdir`.  For `rmdir` the code clears the
-    upper whiteouts of the directory (`empty_node_directory`) BEFORE it copies the parent up, so
-    the forest is transiently not a valid cache and the invariant used here does not carry
-    through that window; `link` was not attempted.  For these two the tie is the correspondence
-    run alone (live tree and restarted tree vs `merge` of the model's disk after every operation)
-    together with `view_is_merge_of_consistent`. -/
-theorem view_is_merge_partial (d : Disk) (hr : d.RootsOK) (ht : d.TreesOK) (ops : List Op)
-    (hops : ∀ op ∈ ops, op.covered = true) (p : List Name) :
+    Proof: the in-memory forest stays a valid cache of the disk (`Consistent`) over every
+    operation (`Fbr.Ovl.runOp_cons_all`).  For `rmdir` the invariant is broken inside the
+    operation (upper whiteouts are deleted before the directory itself goes); that window is
+    described exactly (`Fbr.Ovl.RmReady`) and the end of `do_rm` re-establishes the invariant. -/
+theorem view_is_merge (d : Disk) (hr : d.RootsOK) (ht : d.TreesOK) (ops : List Op) (p : List Name) :
     liveView (run (importFs d) ops) p = merge (run (importFs d) ops).disk p.reverse := by
   have h0 := import_consistent d hr ht
-  exact consistent_view_is_merge _ (run_cons ops hops _ h0.1) p
+  exact consistent_view_is_merge _ (run_cons_all ops _ h0.1) p
 
-/-- the covered operations keep the cache invariant, one at a time, from any consistent state -/
-theorem covered_op_keeps_cache (s : St) (hc : Consistent s) (op : Op) (hop : op.covered = true) :
+/-- every operation kind keeps the cache invariant, one at a time, from any state with a valid
+    cache, whether the operation succeeds or fails -/
+theorem every_op_keeps_cache (s : St) (hc : Consistent s) (op : Op) : Consistent (runOp op s).st :=
+  (runOp_cons_all op).st hc
+
+/-- the cache is valid after every history -/
+theorem cache_valid_after_history (d : Disk) (hr : d.RootsOK) (ht : d.TreesOK) (ops : List Op) :
+    Consistent (run (importFs d) ops) :=
+  run_cons_all ops _ (import_consistent d hr ht).1
+
+/-- (superseded by `view_is_merge`; the name is kept because DESIGN.md refers to it) the same for
+    histories of the operations in `Op.covered` -/
+theorem view_is_merge_partial (d : Disk) (hr : d.RootsOK) (ht : d.TreesOK) (ops : List Op)
+    (_hops : ∀ op ∈ ops, op.covered = true) (p : List Name) :
+    liveView (run (importFs d) ops) p = merge (run (importFs d) ops).disk p.reverse :=
+  view_is_merge d hr ht ops p
+
+/-- (superseded by `every_op_keeps_cache`) -/
+theorem covered_op_keeps_cache (s : St) (hc : Consistent s) (op : Op) (_hop : op.covered = true) :
     Consistent (runOp op s).st :=
-  (runOp_cons op hop).st hc
+  every_op_keeps_cache s hc op
 
-/-- `op_refines_plain_fs`, PARTIAL: (1) non-modifying operations leave the union unchanged, as
-    they leave an ordinary file system unchanged; (2) `unlink_refines_plain_fs` below: after a
-    successful unlink the name is gone from the union.  The other modifying operations are
-    covered only through `view_is_merge_partial` (live view = union) and the harness's
-    ordinary-directory reference run, not by a Lean statement of their plain-fs effect. -/
+/-! ## operations update the union as an ordinary file system would
+
+  `op_refines_plain_fs` is proved in pieces (the statement "the union after = plain-fs step of the
+  union before" for all 13 modifying operations at ALL paths is NOT proved, see the note at
+  `op_refines_plain_fs_partial`). -/
+
+/-- Non-modifying operations (lookup, readdir, read, readlink, getxattr, open read-only, walk)
+    leave the union unchanged at every path, as they leave an ordinary file system unchanged —
+    after ANY history (of all 19 operation kinds), whether they succeed or fail. -/
+theorem readonly_op_refines_plain_fs (d : Disk) (hr : d.RootsOK) (ht : d.TreesOK) (ops : List Op)
+    (op : Op) (hop : op.isModifying = false) :
+    merge (runOp op (run (importFs d) ops)).st.disk = merge (run (importFs d) ops).disk := by
+  have hc := cache_valid_after_history d hr ht ops
+  have h' := (runOp_ro_cd (run (importFs d) ops).disk op hop).st ⟨hc, rfl⟩
+  rw [h'.2]
+
+/-- `op_refines_plain_fs`, PARTIAL (kept name; superseded by `readonly_op_refines_plain_fs`, which
+    drops the restriction on the history): non-modifying operations leave the union unchanged.
+
+    What is proved of `op_refines_plain_fs` altogether: (1) non-modifying operations change
+    nothing (`readonly_op_refines_plain_fs`); (2) after a successful unlink / rmdir the name and
+    everything below it is gone from the union (`unlink_refines_plain_fs`,
+    `rmdir_refines_plain_fs`); (3) every operation keeps live view = union (`view_is_merge`).
+    NOT proved in Lean: the effect of create, mkdir, mknod, symlink, link, chmod, truncate,
+    write, setxattr, removexattr on the union at the target path, and for every modifying
+    operation that the union at all OTHER paths is unchanged.  (The latter is false as stated
+    for `user.*` xattrs of copied-up entries — known finding `C10:copy-up:xattr-lost` — and the
+    view type carries no inode identity, so hard-link aliasing of attribute changes cannot be
+    expressed.)  Those parts rest on the harness's ordinary-directory reference run. -/
 theorem op_refines_plain_fs_partial (d : Disk) (hr : d.RootsOK) (ht : d.TreesOK) (ops : List Op)
     (hops : ∀ op ∈ ops, op.isModifying = false) (op : Op) (hop : op.isModifying = false) :
     merge (runOp op (run (importFs d) ops)).st.disk = merge d := by
@@ -262,13 +300,29 @@ theorem op_refines_plain_fs_partial (d : Disk) (hr : d.RootsOK) (ht : d.TreesOK)
   have h' := (runOp_ro_cd d op hop).st h
   rw [h'.2]
 
-/-- a successful unlink removes the name from the union (from any state with a valid cache) -/
+/-- nothing is visible below a path at which nothing is visible -/
+theorem merge_none_below (d : Disk) (hr : d.RootsOK) (p : Path) (h : specStat d p = none) (q : List Name) :
+    merge d (q ++ p) = .none := by
+  rw [merge_eq_specStat d hr, specStat_none_below d p h q]
+  rfl
+
+/-- a successful unlink removes the name from the union (from any state with a valid cache, in
+    particular after any history) -/
 theorem unlink_refines_plain_fs (s : St) (hc : Consistent s) (p : List Name) (r : Reply) (s' : St)
     (h : runOp (.unlink p) s = .ok r s') : merge s'.disk p.reverse = .none ∧ Consistent s' := by
   have h1 := (runOp_unlink_gone p s hc).1 r s' h
   refine ⟨?_, h1.1⟩
   rw [merge_eq_specStat s'.disk h1.1.roots, h1.2]
   rfl
+
+/-- a successful rmdir removes the name and everything that any layer has below it from the
+    union: whatever upper whiteouts had to be cleared to empty the upper directory, nothing of
+    the lower layers shows through afterwards -/
+theorem rmdir_refines_plain_fs (s : St) (hc : Consistent s) (p : List Name) (r : Reply) (s' : St)
+    (h : runOp (.rmdir p) s = .ok r s') :
+    (∀ q : List Name, merge s'.disk (q ++ p.reverse) = .none) ∧ Consistent s' := by
+  have h1 := (runOp_rmdir_gone p s hc).1 r s' h
+  exact ⟨merge_none_below s'.disk h1.1.roots _ h1.2, h1.1⟩
 
 /-! non-vacuity of the hypotheses: the example disk is well-formed -/
 example : exDisk.RootsOK := by
